@@ -58,18 +58,22 @@ var termErrNames = []string{"io.EOF", "io.ErrUnexpectedEOF", "errX", "wrapped(er
 // ---- EnvReader: harness-owned io.Reader (fault and fragmentation model, DESIGN 4.3) ----
 
 type EnvCfg struct {
-	Chunk       int  `json:"chunk"`                    // max bytes per Read (0 = as much as fits)
-	ErrWithLast bool `json:"err_with_last"`            // final data delivered together with the error
-	ZeroReads   int  `json:"zero_reads"`               // (0,nil) answers before every data read
-	Len         bool `json:"source_has_len,omitempty"` // the source also has a Len() method: bytes readable right now without blocking (as connections and ring buffers have)
-	Err         int  `json:"err"`                      // index into termErrs
-	AfterErr    int  `json:"after_err,omitempty"`      // what a Read AFTER the terminal error answers: 0 the same error again, 1 bogus data (0x7b...) then another error
+	Chunk       int  `json:"chunk"`                                  // max bytes per Read (0 = as much as fits)
+	ErrWithLast bool `json:"err_with_last"`                          // final data delivered together with the error
+	ZeroReads   int  `json:"zero_reads"`                             // (0,nil) answers before every data read
+	Len         bool `json:"source_has_len,omitempty"`               // the source also has a Len() method: bytes readable right now without blocking (as connections and ring buffers have)
+	TailZeros   int  `json:"empty_reads_before_the_error,omitempty"` // once the data is exhausted the source answers this many Reads with (0, nil) before it returns its error
+	Err         int  `json:"err"`                                    // index into termErrs
+	AfterErr    int  `json:"after_err,omitempty"`                    // what a Read AFTER the terminal error answers: 0 the same error again, 1 bogus data (0x7b...) then another error
 }
 
 func (e EnvCfg) String() string {
 	s := fmt.Sprintf("chunk=%d errWithLast=%v zeroReads=%d err=%s", e.Chunk, e.ErrWithLast, e.ZeroReads, termErrNames[e.Err])
 	if e.Len {
 		s += " source-has-Len"
+	}
+	if e.TailZeros > 0 {
+		s += fmt.Sprintf(" emptyReadsBeforeError=%d", e.TailZeros)
 	}
 	if e.AfterErr != 0 {
 		s += " after-error=bogus-data-then-other-error"
@@ -83,6 +87,7 @@ type EnvReader struct {
 	pos int
 
 	zr          int
+	tz          int
 	Calls       int
 	BytesOut    int
 	ErrReturned bool
@@ -195,6 +200,10 @@ func (e *EnvReader) Read(p []byte) (int, error) {
 	}
 	left := len(e.D) - e.pos
 	if len(p) == 0 {
+		return 0, nil
+	}
+	if left == 0 && e.tz < e.Cfg.TailZeros {
+		e.tz++
 		return 0, nil
 	}
 	if dev == 0 && e.zr < e.Cfg.ZeroReads && left > 0 {
